@@ -1,10 +1,12 @@
 """Which units (and extra engines) serve which property, plus MANIFEST metadata."""
-UNITS = ['u_list', 'u_jobs', 'u_tok']
+UNITS = ['u_list', 'u_jobs', 'u_tok', 'u_plan']
 
 PROPERTY_UNITS = {
     'C03': ['u_list'],
     'C06': ['u_jobs'],
-    'C05': ['u_list', 'u_jobs', 'u_tok'],
+    'C05': ['u_list', 'u_jobs', 'u_tok', 'u_plan'],
+    'C01': ['u_plan'],
+    'C13': ['u_plan'],
 }
 EXTRA_ENGINES = {}
 HOOK_COMMITS = []
@@ -35,6 +37,19 @@ META['C05'] = {
             'completion word-start, pty layer) are not covered by proof; see evidence.bounded for stand-ins.',
 }
 
+META['C01'] = {
+    'text': 'Verus proves that every post-tokenizer planning pass consults the quote tag: pipe splitting is the exact inverse of joining at unquoted "|" tokens only; '
+            'only an unquoted trailing "&" backgrounds; only unquoted "<" / "<<<" are taken as stdin redirection; quoted tokens and tokens without ">" pass '
+            'tokens_to_redirections unchanged; composed: a planned token list of quoted/plain arguments becomes exactly one command with exactly those tokens.',
+    'note': 'tokenizer functional clause (line -> tagged tokens) for the quoted sub-language and the expansion passes are separate units; argv construction at execve is '
+            'read, not verified; escaped unquoted words lose their escape in parse_line (architectural; known finding when claimed).',
+}
+META['C13'] = {
+    'text': 'The same tag-honouring contracts as C01 decide the double-quoted half: a token that still carries a quote tag after expansion is never split at "|", '
+            'never taken as "&", "<", "<<<" or an output redirection, for all token texts.',
+    'note': 'that expansion passes keep/set the tag is proved in U-EXP; the unquoted half ($X unquoted keeps an empty tag and is re-read) is architectural.',
+}
+
 _PENDING = 'not yet brought under contract in this revision of /verif (work in progress; see DESIGN.md)'
 NOT_APPLICABLE = {
     'C14': 'parse tree comes from a macro-generated pest parser and the external, lifetime-parameterised pest::iterators::Pair type; no contract within reach',
@@ -42,5 +57,5 @@ NOT_APPLICABLE = {
     'C18': 'semantics live in SQLite\'s SQL parser (bundled C library); SQL is built with format!, outside Verus',
     'C20': 'needs the lineread completer protocol, a populated filesystem and the escaped-word round trip (a recorded C01 violation)',
 }
-for _p in ['C01', 'C02', 'C04', 'C07', 'C08', 'C09', 'C10', 'C11', 'C12', 'C13', 'C15', 'C17', 'C19']:
+for _p in ['C02', 'C04', 'C07', 'C08', 'C09', 'C10', 'C11', 'C12', 'C13', 'C15', 'C17', 'C19']:
     NOT_APPLICABLE.setdefault(_p, _PENDING)
